@@ -29,7 +29,7 @@ fn main() {
         n += 1;
         let checks = [
             ("--zzopt listed iff not hidden", p.contains("zzopt") == !h_opt),
-            ("positional listed iff not hidden", p.contains("zzpos") == !h_pos || p.contains("ZZPOS") == !h_pos),
+            ("positional listed iff not hidden", (p.contains("zzpos") || p.contains("ZZPOS")) == !h_pos),
             ("subcommand listed iff not hidden", p.contains("zzsub") == !h_sub),
             ("VERSION section iff a version is set", p.contains(".SH VERSION") == ver),
             ("AUTHORS section iff an author is set", p.contains(".SH AUTHORS") == author),
